@@ -560,7 +560,12 @@ impl<S: Sample> TransformedModularSubimage<'_, S> {
                     grid.grid_mut(),
                     node,
                 )?;
-            } else if let Some(table) = ma_tree.simple_table() {
+            } else if let Some(table) = ma_tree
+                .simple_table()
+                // The table decoder doesn't track previous channels; properties referring to
+                // them must go through the general path.
+                .filter(|table| table.decision_prop < 16)
+            {
                 decode_simple_table(
                     bitstream,
                     &mut decoder,
